@@ -4,6 +4,7 @@ import Gv.Oracle.PhaseAlign
 import Gv.Model.Phase
 import Gv.Model.PhaseAlign
 import Gv.Gen.Facts
+import Gv.Oracle.CliDefaults
 /-!
 Command-line glue of the phasing commands (C16) against the library models: what the built binary prints and
 writes for `goalign orf` and `goalign phasent` must be what `longestORFBag` / `phaseNT` give, through flag parsing
@@ -20,7 +21,7 @@ def opt (argv : List String) (f : String) : Option String :=
   | _ => none
 
 def codeOf (fl : List String) : Int :=
-  match (opt fl "--genetic-code").getD "standard" with
+  match (opt fl "--genetic-code").getD ((CliDefaults.effective "phasentCmd" "genetic-code").getD "standard") with
   | "standard" => 0 | "mitov" => 1 | "mitoi" => 2 | _ => 99
 
 /-- `goalign orf [--reverse]`: the sequences are un-aligned first -/
@@ -38,9 +39,9 @@ def expectedPhasent (rows : Rows) (files : List (String × String)) (fl : List S
   -- only the configuration the generator uses is modelled: no cut-off on matches or length
   if refs.isEmpty || opt fl "--match-cutoff" != some "-1" then none else
   let tbl ← geneticCode (codeOf fl)
-  -- gap penalties in half units.  Without `--gap-open` the command uses −10, not the −12 its help text announces:
-  -- the variable behind the flag is shared with `phase` and `sw`, and the registration that runs last (cmd/sw.go,
-  -- −10 / −0.5) decides the value every command starts from (DESIGN 7.2)
+  -- gap penalties in half units; without the flag, the value the command starts from: the default registered last
+  -- for the Go variable behind it (`Gen.CliFlags`) - for `--gap-open` that is −10 from cmd/sw.go, not the −12 the
+  -- help text of phasent announces (DESIGN 7.2)
   let half (v : String) : Option Int :=
     let neg := v.startsWith "-"
     let body := if neg then (v.drop 1).toString else v
@@ -49,8 +50,8 @@ def expectedPhasent (rows : Rows) (files : List (String × String)) (fl : List S
      | [a, "5"] => a.toNat?.map fun x => 2 * x + 1
      | [a, "0"] => a.toNat?.map fun x => 2 * x
      | _ => none).map fun n => if neg then -(n : Int) else (n : Int)
-  let go ← half ((opt fl "--gap-open").getD "-10")
-  let ge ← half ((opt fl "--gap-extend").getD "-0.5")
+  let go ← half ((opt fl "--gap-open").getD (← CliDefaults.effective "phasentCmd" "gap-open"))
+  let ge ← half ((opt fl "--gap-extend").getD (← CliDefaults.effective "phasentCmd" "gap-extend"))
   let c : NTCfg := { den := 2, gapopen := go, gapextend := ge, scores := none, reverse := flag fl "--reverse",
                      cutend := flag fl "--cut-end", fixed := true, alphaFixed := true }
   let badF := "rc=1 out= files="
